@@ -259,7 +259,7 @@ def st_prog(draw, max_depth=3):
         shape = draw(A.shapes(1, 3, 1, 5, 30))
     prog = _node(draw, shape, dt, field, depth, top_stack)
     return {"dtype": dt, "alpha": draw(st.integers(1, 64)) / 8, "alpha_np": draw(st.booleans()),
-            "prog": prog, "cseed": draw(st.integers(0, 2 ** 31 - 1))}
+            "prog": prog, "cseed": draw(st.integers(0, 2 ** 31 - 1)), "layout": draw(st.sampled_from(A.LAYOUTS))}
 
 
 # =============================================================== compile (materialise parameters)
@@ -1022,6 +1022,29 @@ def check_prog(case):
 
     x, primary = evaluate(r, cn, a_impl, y, tol, dt)
     r.check(np.array_equal(y, y0), root + ":mutates-input", "input changed by the call")
+    if x is not None and primary is None:
+        # The SAME prox object is used again: (i) with another step size and input in between, (ii) on an equal y
+        # held in another memory layout (Fortran / strided / reversed view). P(alpha, y) must not depend on what the
+        # object did before, nor on how the caller's array is laid out.
+        lay = case.get("layout", "c")
+        try:
+            other = np.ascontiguousarray(y0[::-1] * 2 + 1).astype(dt)
+            cn["P"](2.5 * a_impl, other)
+            y2 = A.relayout(y0.copy(), lay)
+            y2c = y2.copy()
+            x2 = np.asarray(cn["P"](a_impl, y2))
+            if x2.shape != np.shape(x) or not _nrm(x2.astype(np.complex128) - np.asarray(x).astype(np.complex128)) <= tol * (1.0 + _nrm(y0) + pscale_arrays(cn)):
+                r.fail(root + ":second-call-differs", "second call on the same object (after another call; y as a '%s' array) "
+                       "differs from the first by %.3e" % (lay, _nrm(x2.astype(np.complex128) - np.asarray(x).astype(np.complex128))
+                                                           if x2.shape == np.shape(x) else float("nan")))
+            r.check(np.array_equal(y2, y2c), root + ":mutates-input", "input (%s layout) changed by the call" % lay)
+            if lay != "c":
+                r.label("layout:" + lay)
+        except Exception as e:
+            c = e
+            while c.__cause__ is not None:
+                c = c.__cause__
+            r.fail(root + ":second-call-raises", "%s: %s (y as a '%s' array)" % (type(c).__name__, str(c)[:200], lay))
     for t, k, v, v0 in snaps:
         r.check(np.array_equal(v, v0), t + ":mutates-parameter", "parameter %s changed by the call" % k)
 
